@@ -200,33 +200,118 @@ def t_output_accuracy(E, kind):
     E.prove(sig <= digits, 'at most %d significant digits' % digits)
 
 
+def _mbf_near(cls, value, k):
+    """Bytes of the k-th float above (below) the float nearest to the positive rational `value`."""
+    from fractions import Fraction
+    bits = 8 * (cls.size - 1)
+    e = 0
+    while value >= Fraction(2) ** e:
+        e += 1
+    while value < Fraction(2) ** (e - 1):
+        e -= 1
+    man = int(value / Fraction(2) ** e * (1 << bits) + Fraction(1, 2)) + k
+    if man >= 1 << bits:
+        man, e = man >> 1, e + 1
+    if man < 1 << (bits - 1):
+        man, e = man << 1, e - 1
+    if not (1 <= e + 128 <= 255):
+        return None
+    man &= ~(1 << (bits - 1))
+    return man.to_bytes(cls.size - 1, 'little') + bytes([e + 128])
+
+
+def t_output_near_powers(E, kind):
+    """Printing of the floats within 40 units in the last place of each power of ten (where the decimal
+    mantissa rounds up into an extra digit)."""
+    from fractions import Fraction
+    cls, digits = (numbers.Single, 7) if kind == 'single' else (numbers.Double, 16)
+    vals = values_env()
+    p = E.int('power', -38, 38)
+    k = E.int('offset', -40, 40)
+    b = _mbf_near(cls, Fraction(10) ** p, k)
+    if b is None:
+        return
+    x = cls(None, vals).from_bytes(b)
+    s = x.to_str(False, False)
+    shown, unit, sig = _shown(s)
+    E.prove(abs(shown - _exact(cls, b)) < unit, 'the shown value is within one unit of the last digit shown')
+    E.prove(sig <= digits, 'at most %d significant digits' % digits)
+
+
+_LONG = 'C07-literal-longer-than-the-type-holds'
+
+
+def _finding_open(fid):
+    """Is the recorded finding still listed as open (read from the committed file, never written)?"""
+    import json, os
+    path = os.path.join(os.path.dirname(os.path.dirname(os.path.abspath(__file__))), 'known_findings.jsonl')
+    for line in open(path):
+        line = line.strip()
+        if line and not line.startswith('#'):
+            rec = json.loads(line)
+            if rec.get('id') == fid:
+                return rec.get('status') == 'open'
+    return False
+
+
+def _input_error(vals, txt):
+    """(type, error in units of the last binary place) of reading txt, or a verdict string."""
+    from fractions import Fraction
+    dec = Fraction(txt.replace('D', 'E').replace('!', '').replace('#', ''))
+    try:
+        v = vals.from_repr(txt.encode(), False)
+    except BASICError as e:
+        return ('overflow', e.err, dec)
+    if dec == 0:
+        return ('zero', v.is_zero(), dec)
+    b = bytes(v.to_bytes())
+    if b[-1] == 0:
+        return ('underflow', None, dec)
+    cls = type(v)
+    ulp = Fraction(2) ** (b[-1] - 128 - 8 * (cls.size - 1))
+    return (cls, abs(_exact(cls, b) - dec) / ulp, dec)
+
+
 def t_input_accuracy(E, kind):
     from fractions import Fraction
     cls = numbers.Single if kind == 'single' else numbers.Double
     vals = values_env()
-    nd = E.int('ndigits', 1, 7 if kind == 'single' else 16)
+    nd = E.int('ndigits', 1, 20)
     digs = ''.join(str(E.int('d%d' % i, 0, 9)) for i in range(nd))
     pt = E.int('point', 0, nd)
     e = E.int('exp', -30, 30)
     txt = digs[:pt] + '.' + digs[pt:] + ('E%d' % e)
     if kind == 'double':
         txt = txt.replace('E', 'D')
-    dec = Fraction(txt.replace('D', 'E'))
-    try:
-        v = vals.from_repr(txt.encode(), False)
-    except BASICError as e:
-        E.prove(e.err == error.OVERFLOW and abs(dec) >= Fraction(2) ** 126, 'only Overflow, only for numbers beyond the largest')
+    res = _input_error(vals, txt)
+    if res[0] == 'overflow':
+        E.prove(res[1] == error.OVERFLOW and abs(res[2]) >= Fraction(2) ** 126, 'only Overflow, only for numbers beyond the largest')
         return
-    if dec == 0:
-        E.prove(v.is_zero(), 'zero is read as zero')
+    if res[0] == 'zero':
+        E.prove(res[1], 'zero is read as zero')
         return
-    E.prove(isinstance(v, cls), 'type as written')
-    b = bytes(v.to_bytes())
-    if b[-1] == 0:
-        E.prove(abs(dec) < Fraction(2) ** -128, 'underflow to zero only below the smallest number')
+    if res[0] == 'underflow':
+        E.prove(abs(res[2]) < Fraction(2) ** -128, 'underflow to zero only below the smallest number')
         return
-    ulp = Fraction(2) ** (b[-1] - 128 - 8 * (cls.size - 1))
-    E.prove(abs(_exact(cls, b) - dec) < ulp, 'the stored value is within one unit in the last binary place of the decimal value')
+    got_cls, err, _ = res
+    nsig = len(digs.lstrip('0'))
+    if nsig <= 7 and kind == 'single' or (7 < nsig <= 16 and kind == 'double'):
+        E.prove(got_cls is cls, 'type as written')
+    if nsig > got_cls.digits and _finding_open(_LONG):
+        # recorded, open finding: digits beyond the precision of the type are cut off, not rounded
+        E.prove(err < 3, 'literal with more digits than the type holds: within 3 units in the last binary place (open finding: not within 1)')
+    else:
+        E.prove(err < 1, 'the stored value is within one unit in the last binary place of the decimal value')
+
+
+def t_long_literal(E, text):
+    """Witness task of the open finding: a literal with more significant digits than its type holds."""
+    res = _input_error(values_env(), text)
+    digs = text.upper().split('E')[0].split('D')[0].replace('.', '').lstrip('0')
+    if res[0] not in ('overflow', 'zero', 'underflow') and len(digs) > res[0].digits and E.known_finding(_LONG, True):
+        return
+    E.prove(res[0] not in ('overflow', 'zero', 'underflow') and res[1] < 1,
+            'the stored value is within one unit in the last binary place of the decimal value')
 
 
 _SHAPES = [
@@ -246,8 +331,11 @@ TASKS = [
     Task('Integer.to_str', t_integer_to_str, cases=[{'leading_space': l} for l in (True, False)]),
     Task('Float.to_str accuracy (bounded)', t_output_accuracy, cases=[{'kind': k} for k in ('single', 'double')], bounded=True,
          samples=(3000, 60000), scope='3000 (quick) / 60000 (thorough) sampled bit patterns per type against exact rational arithmetic'),
+    Task('Float.to_str near powers of ten (bounded)', t_output_near_powers, cases=[{'kind': k} for k in ('single', 'double')], bounded=True,
+         samples=(4000, 12474), scope='4000 sampled (quick) of the 6237 floats per type within 40 units in the last place of 10^p, p = -38..38'),
     Task('Values.from_repr accuracy (bounded)', t_input_accuracy, cases=[{'kind': k} for k in ('single', 'double')], bounded=True,
-         samples=(3000, 60000), scope='3000 (quick) / 60000 (thorough) sampled decimal literals (1..7 / 1..16 digits, exponents -30..30) per type against exact rational arithmetic'),
+         samples=(3000, 60000), scope='3000 (quick) / 60000 (thorough) sampled decimal literals (1..20 digits, exponents -30..30) per exponent letter against exact rational arithmetic'),
+    Task('Values.from_repr (literal longer than the type holds)', t_long_literal, cases=[{'text': t} for t in ('8383286.0', '99955720190.12636151D-11', '1.5', '7845.175')]),
 ]
 
 ASSUMPTIONS = [
